@@ -105,7 +105,6 @@ impl VolumeSpec {
 
     /// Per-record decompressed payloads.
     pub fn payloads(&self) -> Vec<Vec<u8>> {
-        let mut filler = Rng::new(0);
         let mut out = Vec::new();
         for (ri, &start) in self.record_starts.iter().enumerate() {
             let end = self
@@ -115,11 +114,47 @@ impl VolumeSpec {
                 .unwrap_or(self.items.len());
             let mut p = Vec::new();
             for it in &self.items[start..end] {
+                // gap filler depends on the item alone, so a record's bytes do not depend on where
+                // in the volume the record stands
+                let mut filler = Rng::new(match it {
+                    StreamItem::Radial { hdr, msg } => crate::rng::mix(hdr.seq as u64, crate::rng::mix(msg.hdr.time as u64, msg.hdr.az_num as u64)),
+                    StreamItem::Meta(_) => 0,
+                });
                 p.extend_from_slice(&Self::item_bytes(it, &mut filler));
             }
             out.push(p);
         }
         out
+    }
+
+    /// A sibling of this volume: the same 24 header bytes, the same records (hence the same total
+    /// length, byte for byte the same record bodies) in another order.  Anything that recognises a
+    /// volume by its header and size takes the two for one.
+    pub fn with_records_reordered(&self, rng: &mut Rng) -> Option<VolumeSpec> {
+        let n = self.record_starts.len();
+        if n < 2 {
+            return None;
+        }
+        let mut order: Vec<usize> = (0..n).collect();
+        let (i, j) = (rng.usize_below(n), rng.usize_below(n));
+        if i == j {
+            order.rotate_left(1);
+        } else {
+            order.swap(i, j);
+        }
+        let mut items = Vec::new();
+        let mut record_starts = Vec::new();
+        let mut negative_prefix = Vec::new();
+        let mut levels = Vec::new();
+        for &r in &order {
+            let start = self.record_starts[r];
+            let end = self.record_starts.get(r + 1).copied().unwrap_or(self.items.len());
+            record_starts.push(items.len());
+            items.extend(self.items[start..end].iter().cloned());
+            negative_prefix.push(self.negative_prefix.get(r).copied().unwrap_or(false));
+            levels.push(self.levels.get(r).copied().unwrap_or(1));
+        }
+        Some(VolumeSpec { header: self.header.clone(), items, record_starts, negative_prefix, levels })
     }
 
     pub fn build(&self) -> Vec<u8> {
@@ -255,6 +290,10 @@ pub fn gen_volume(rng: &mut Rng, p: &VolParams) -> VolumeSpec {
                     }
                     _ => {}
                 }
+            }
+            // a quarter of the radials are laid out loosely (gaps, blocks out of physical order)
+            if rng.chance(1, 4) {
+                msg.loosen_frameable(rng);
             }
             let hdr = MsgHeader::realistic(rng, 31);
             let repeat = retransmit && rng.chance(1, 5);
